@@ -16,7 +16,8 @@ CHECKS = {
          "rendered by the real library and compared. Seeded random libraries/pages (depth 3-4) are rendered as plain tags, through the dynamic "
          "component and through Component.render(slots=) and the observations validated by TLC against the same semantics. Disagreements are "
          "accepted only if they equal what a named, listed deviation of the specification predicts (KNOWN-FINDING).",
-         "Bounded: exhaustive to 3 (quick) / 4 (thorough) page nodes over a fixed 4-component library; beyond that sampled. Well-formed programs "
+         "Bounded: exhaustive to 3 (quick) / 4 (thorough: 643 k pages, ~40 min) page nodes over a fixed component library; beyond that sampled (incl. "
+         "programs with on_render_before / on_render_after hooks). Well-formed programs "
          "only; constructs whose outcome the property does not determine are flagged as zones by the specification and skipped.",
          "§3, §4 C01"),
  "C03": ("model_checking",
@@ -122,7 +123,8 @@ CHECKS = {
          "Flat leaves no family node and is idempotent) for component programs whose page and component templates are split into base + child (+ include); "
          "the real render of the family must equal it in both context modes.",
          "multiline_tags=True makes sources with a newline between an opening delimiter and its closer a documented deviation (not generated); no quoted "
-         "closers in block tags; families are sampled (seeded), not exhaustively enumerated.",
+         "closers in block tags; families are sampled (seeded), not exhaustively enumerated. One narrow shape-keyed open finding (default alias inside a block "
+         "override inside that fill) excuses token differences in programs of that shape only.",
          "§4 C10"),
  "C11": ("model_checking",
          "TLC state machine ArgBinding.tla (CPython's binding algorithm: Declare*/Pass*) enumerating (signature, call) cases, each replayed three ways (literal CPython call, fast-path tag, fallback-path tag) + TLC trace validation of deeper random cases",
@@ -139,7 +141,8 @@ CHECKS = {
          "The reference semantics computes for every element occurrence the set of component instances it is a root of (depth 0 of the instance's output, "
          "through slot content and components placed at depth 0); every enumerated page (0..n roots, text-only, component-as-root, roots from fills / "
          "defaults / loops) and random programs are rendered, the HTML parsed, and the data-djc-id-* attributes of every element compared through the "
-         "Component.id echoes (also: ids distinct, no placeholder left, child attrs consumed). Chains of depth 2000 (wrapped) / 300 (as root) in thorough.",
+         "Component.id echoes, instances that echo none (silent wrappers) by unification (also: ids distinct, no placeholder left, child attrs consumed). "
+         "Chains of depth 1100 in quick, 2000 (wrapped) / 300 (as root) in thorough; both tiers enumerate pages to 3 nodes (4 nodes = 1 M pages was too slow).",
          "Well-formed lower-case non-void elements with quoted attributes; the Rust HTML pass is trusted; html.parser lower-cases attribute names.",
          "§4 C14"),
  "C02": ("model_checking",
